@@ -34,6 +34,43 @@ Definition composite_parse (sections : list text) (split : bool) (f : file_view)
   | None => try_ini
   end.
 
+(* The same parser, as the loop it is: `for p in self.parsers: try: return p.parse(stream) except Exception: ...`.
+   self.parsers is built once (options.PydoctorConfigParser is a module-level object shared by every parse of the
+   process) and parse() never assigns to it: the state after a parse is the state before. *)
+Inductive parser_kind : Type := PToml | PIni.
+
+Definition run_parser (sections : list text) (split : bool) (k : parser_kind) (f : file_view) : pres :=
+  match k with
+  | PToml => match fv_toml f with Some data => toml_parse sections data | None => PError end
+  | PIni => match fv_ini f with Some secs => ini_parse sections split secs | None => PError end
+  end.
+
+Fixpoint composite_try (sections : list text) (split : bool) (ps : list parser_kind) (f : file_view) : pres :=
+  match ps with
+  | [] => PError
+  | p :: rest =>
+      match run_parser sections split p f with
+      | PError => composite_try sections split rest f
+      | r => r
+      end
+  end.
+
+Definition composite_step (sections : list text) (split : bool) (ps : list parser_kind) (f : file_view)
+  : pres * list parser_kind :=
+  (composite_try sections split ps f, ps).
+
+(* every config file the process reads, one after the other, threading the parser object's state *)
+Fixpoint parse_history (sections : list text) (split : bool) (ps : list parser_kind) (files : list file_view)
+  : list pres :=
+  match files with
+  | [] => []
+  | f :: rest =>
+      let (r, ps') := composite_step sections split ps f in
+      r :: parse_history sections split ps' rest
+  end.
+
+Definition pydoctor_parsers : list parser_kind := [PToml; PIni].
+
 Definition d_verbosity : text := [118;101;114;98;111;115;105;116;121].
 Definition d_quietness : text := [113;117;105;101;116;110;101;115;115].
 
